@@ -82,6 +82,7 @@ class Check:
             'wraps': rng.randint(0, 4),
             'cfg_modes': rng.sample(['configuration', 'copy', 'command'], rng.randint(1, 3)),
             'cc_checks': rng.random() < 0.6,
+            'ext_deps': rng.random() < 0.6,
         }
         opts = {}
         if rng.random() < 0.5:
@@ -154,6 +155,12 @@ class Check:
             elif mode == 'command':
                 add.append("configure_file(output: 'c06_cmd.h', command: [py, files('gen.py'), 'define', '@OUTPUT@', 'CMD_VAL', '7'])\n")
                 cfg_outputs.append('c06_cmd.h')
+        if ex.get('ext_deps'):
+            # external dependencies held in variables: they live in coredata's dependency cache across reconfigures
+            head.append("thr_dep = dependency('threads')\n"
+                        "z_dep = dependency('zlib', required: false)\n"
+                        "nope_dep = dependency('no-such-dependency-anywhere', required: false)\n"
+                        "m_dep = meson.get_compiler('c').find_library('m', required: false)\n")
         with open(os.path.join(sd, 'meson.build')) as f:
             lines = f.readlines()
         # project arguments must be added before the first target: right after the preamble
@@ -468,7 +475,7 @@ class Check:
             c = copy.deepcopy(sc)
             del c['spec']['ents'][i]
             yield c
-        for key, simple in (('pkgconfig', False), ('install', False), ('wraps', 0), ('tests', 1), ('cc_checks', False)):
+        for key, simple in (('pkgconfig', False), ('install', False), ('wraps', 0), ('tests', 1), ('cc_checks', False), ('ext_deps', False)):
             if sc['extras'].get(key) != simple:
                 c = copy.deepcopy(sc)
                 c['extras'][key] = simple
